@@ -1406,3 +1406,6 @@ func Entails(facts []Lin, nonneg map[string]bool, t Lin) bool {
 
 // Coef returns the coefficient of symbol s.
 func (a Lin) Coef(s string) int64 { return a.t[s] }
+
+// ConstPart returns the constant term.
+func (a Lin) ConstPart() int64 { return a.c }
